@@ -188,8 +188,16 @@ pub fn array_constructor_fn(
     if args.len() == 1
         && let Some(JsValue::Number(n)) = args.first()
     {
-        let len = *n as u32;
-        let mut elements = Vec::with_capacity(len as usize);
+        // new Array(len): len must be an array length; lengths that cannot be stored
+        // (arrays are dense) are refused instead of aborting on the allocation.
+        if *n < 0.0 || *n != crate::prelude::math::trunc(*n) || *n > 4294967295.0 {
+            return Err(JsError::range_error("Invalid array length"));
+        }
+        let len = *n as usize;
+        let mut elements = Vec::new();
+        if len > crate::value::MAX_ARRAY_LENGTH || elements.try_reserve_exact(len).is_err() {
+            return Err(JsError::range_error("Invalid array length"));
+        }
         for _ in 0..len {
             elements.push(JsValue::Undefined);
         }
